@@ -219,6 +219,10 @@ def dotted(node: ast.AST) -> Optional[str]:
     return None
 
 
+class FoldRaised(AnalysisError):
+    """the evaluated code reaches a raise statement (or a failing assert) on the given values"""
+
+
 class Repo:
     def __init__(self, root: str):
         self.root = os.path.abspath(root)
@@ -559,6 +563,20 @@ class Repo:
                     return a ^ b
             except (TypeError, ZeroDivisionError, ValueError) as e:
                 raise AnalysisError("cannot fold %s: %s" % (ast.unparse(node), e))
+        if isinstance(node, ast.Compare) and len(node.ops) > 1:
+            left = node.left
+            for op_, right in zip(node.ops, node.comparators):
+                if not self.fold(ast.Compare(left=left, ops=[op_], comparators=[right]), m, func, env):
+                    return False
+                left = right
+            return True
+        if isinstance(node, ast.BoolOp):
+            v: Any = isinstance(node.op, ast.And)
+            for x in node.values:
+                v = F(x)
+                if bool(v) != isinstance(node.op, ast.And):
+                    return v
+            return v
         if isinstance(node, ast.Compare) and len(node.ops) == 1:
             a, b = F(node.left), F(node.comparators[0])
             op = node.ops[0]
@@ -587,6 +605,12 @@ class Repo:
 
     def _fold_call(self, node: ast.Call, m: Module, func: Optional[FuncInfo], env: Dict[str, Any]) -> Any:
         F = lambda n: self.fold(n, m, func, env)  # noqa
+        if isinstance(node.func, ast.Name) and node.func.id == "isinstance" and len(node.args) == 2 and "isinstance" not in env:
+            types = {"int": int, "bool": bool, "float": float, "str": str, "bytes": bytes, "list": list, "tuple": tuple, "dict": dict}
+            tn = node.args[1].elts if isinstance(node.args[1], ast.Tuple) else [node.args[1]]
+            if all(isinstance(t, ast.Name) and t.id in types for t in tn):
+                return isinstance(F(node.args[0]), tuple(types[t.id] for t in tn))      # type: ignore[union-attr]
+            raise AnalysisError("cannot fold %s" % ast.unparse(node)[:80])
         args = [F(a) for a in node.args]
         kw = {k.arg: F(k.value) for k in node.keywords if k.arg}
         fn = node.func
@@ -652,6 +676,11 @@ class Repo:
         """Inline a repo function whose body is (docstring +) a single `return <expr>`."""
         fi = self.functions[q]
         body = [s for s in fi.node.body if not (isinstance(s, ast.Expr) and isinstance(s.value, ast.Constant))]  # type: ignore
+        if any(isinstance(s, (ast.If, ast.Raise, ast.Assert)) for s in body):
+            env0: Dict[str, Any] = dict(zip(fi.params, args))
+            env0.update(kw)
+            done, val = self.eval_statements(fi, body, env0)
+            return val if done else None
         # straight-line body: simple assignments to fresh local names, then a single `return <expr>`
         if not body or not isinstance(body[-1], ast.Return) or body[-1].value is None:
             raise AnalysisError("cannot fold call to %s (not a straight-line single-return function)" % q)
@@ -669,6 +698,37 @@ class Repo:
                 raise AnalysisError("cannot fold call to %s (not a straight-line single-return function)" % q)
             env[tgt.id] = self.fold(val, fi.module, fi, env)
         return self.fold(body[-1].value, fi.module, fi, env)
+
+    def eval_statements(self, fi: FuncInfo, stmts: List[ast.stmt], env: Dict[str, Any]) -> Tuple[bool, Any]:
+        """evaluate a block of the constant sublanguage on concrete values: (returned?, value); a raise statement that is reached is a
+        FoldRaised. Loops and anything with an effect are outside the sublanguage."""
+        for st in stmts:
+            if isinstance(st, ast.Return):
+                return True, (self.fold(st.value, fi.module, fi, env) if st.value is not None else None)
+            if isinstance(st, ast.Assign) and len(st.targets) == 1 and isinstance(st.targets[0], ast.Name):
+                env[st.targets[0].id] = self.fold(st.value, fi.module, fi, env)
+            elif isinstance(st, ast.AnnAssign) and isinstance(st.target, ast.Name) and st.value is not None:
+                env[st.target.id] = self.fold(st.value, fi.module, fi, env)
+            elif isinstance(st, ast.AugAssign) and isinstance(st.target, ast.Name) and st.target.id in env:
+                env[st.target.id] = self.fold(ast.BinOp(left=ast.Name(id=st.target.id, ctx=ast.Load()), op=st.op, right=st.value), fi.module, fi, env)
+            elif isinstance(st, ast.If):
+                done, val = self.eval_statements(fi, st.body if self.fold(st.test, fi.module, fi, env) else st.orelse, env)
+                if done:
+                    return True, val
+            elif isinstance(st, ast.Raise):
+                raise FoldRaised(ast.unparse(st)[:120])
+            elif isinstance(st, ast.Assert):
+                if not self.fold(st.test, fi.module, fi, env):
+                    raise FoldRaised(ast.unparse(st)[:120])
+            elif isinstance(st, ast.Expr) and isinstance(st.value, ast.Constant):
+                continue
+            elif isinstance(st, ast.Expr) and isinstance(st.value, ast.Call):
+                self.fold(st.value, fi.module, fi, env)
+            elif isinstance(st, ast.Pass):
+                continue
+            else:
+                raise AnalysisError("%s uses a statement outside the evaluated sublanguage: %s" % (fi.name, type(st).__name__))
+        return False, None
 
     # ----------------------------------------------------------------- helpers
     def src(self, node: ast.AST) -> str:
